@@ -15,7 +15,7 @@ def apply_step(w, program, st, **kw):
         opts = st[4] if len(st) > 4 else None
         if opts:
             kw = dict(kw)
-            kw.update(build_kwargs(opts))
+            kw.update(build_kwargs(opts, w))
             kw['step_opts'] = opts
         return w.build(program, body, st[2] or {}, label=label, **kw)
     if op == 'clean':
@@ -41,7 +41,7 @@ def apply_step(w, program, st, **kw):
     return None
 
 
-def build_kwargs(opts):
+def build_kwargs(opts, w=None):
     """World.build keyword arguments for a recorded crash point / injected fault"""
     import errno
     from .prog import crash_hook
@@ -58,6 +58,9 @@ def build_kwargs(opts):
                             lambda path, cls=cls, code=code: cls(code, 'injected fault', path))
         if f.get('expect_fail', True):
             kw['run_model'] = False
+    if 'model_setup_fail' in opts and w is not None:
+        kw['model_setup_fail'] = {w.ap(r): OSError(errno.EIO, 'injected fault (model)')
+                                  for r in opts['model_setup_fail']}
     return kw
 
 
